@@ -137,6 +137,42 @@ def accumulate (A : Alg F) (α : World F) (m : MShare F) (acc : Acc F) : Acc F :
           A.add acc.w.h2 (contrib A wContribArgs α m (·.h2)),
           A.add acc.w.h3 (contrib A wContribArgs α m (·.h3))⟩ }
 
+/-! ## vectorised shares (`N` lanes) -/
+
+/-- the per-lane random coefficients `accumulate_macs` multiplies with: `random_constant = prss.generate(record_id)`
+is an `N`-lane sharing, i.e. lane `i` uses its own `α_i` (`coefficientPerLane`).  Were a single value expanded
+across the lanes, every lane would use lane 0's. A lane is a pair (its `α`, its MAC'd sharing). -/
+def laneAlphas (lanes : List (World F × MShare F)) : List (World F) :=
+  if coefficientPerLane then lanes.map (·.1)
+  else match lanes with
+    | [] => []
+    | l :: _ => lanes.map (fun _ => l.1)
+
+/-- one helper's `u` / `w` contribution for an `N`-lane share: the vectorised formula, lanes folded from `ZERO`. -/
+def contribN (A : Alg F) (args : Opnd × Opnd) (lanes : List (World F × MShare F)) (pick : World F → HShare F) : F :=
+  let s : Opnd → List (World F) := fun
+    | .alpha => laneAlphas lanes
+    | .inputRx => lanes.map (fun l => l.2.rx)
+    | .induced => lanes.map (fun l => induced l.2.x)
+    | _ => []
+  dotContributionN A ((s args.1).map pick) ((s args.2).map pick)
+
+/-- `accumulate_macs` for an `N`-lane share on all three helpers. -/
+def accumulateN (A : Alg F) (lanes : List (World F × MShare F)) (acc : Acc F) : Acc F :=
+  { u := ⟨A.add acc.u.h1 (contribN A uContribArgs lanes (·.h1)),
+          A.add acc.u.h2 (contribN A uContribArgs lanes (·.h2)),
+          A.add acc.u.h3 (contribN A uContribArgs lanes (·.h3))⟩,
+    w := ⟨A.add acc.w.h1 (contribN A wContribArgs lanes (·.h1)),
+          A.add acc.w.h2 (contribN A wContribArgs lanes (·.h2)),
+          A.add acc.w.h3 (contribN A wContribArgs lanes (·.h3))⟩ }
+
+/-- the variant in which ONE coefficient (lane 0's) is used for all lanes of a record — NOT what the code does;
+kept to document why the coefficients must be independent (`shared_coefficient_counterexample`). -/
+def accumulateShared (A : Alg F) (lanes : List (World F × MShare F)) (acc : Acc F) : Acc F :=
+  match lanes with
+  | [] => acc
+  | l :: _ => lanes.foldl (fun a ln => accumulate A l.1 ln.2 a) acc
+
 /-! ## circuits: any sequence of upgrades, multiplications and local linear operations -/
 
 /-- one step of a computation under one validator batch. Wires are numbered in creation order. -/
